@@ -119,6 +119,28 @@ def scenarios(ctx, oracle):
     # stop sweeps: first a probe run to learn the number of polls, expanded later
     for name, d in ([('pos3', 2), ('mate_in_2', 2), ('ep_hpin', 3), ('kr_k', 2)] if quick else [('pos3', 2), ('pos3', 3), ('mate_in_2', 3), ('ep_hpin', 3), ('kr_k', 3), ('start', 2), ('castle_free', 2), ('promo_all', 2)]):
         sc.append(('stops-probe', f'{name}@d{d}', [mk_search(d, -1, 1, 0, 2, [], seeds[name])]))
+    # fallback: nothing completes (stop seen by the very first poll) or the root goes straight to quiescence (half-move clock 100):
+    # the answer then comes from search()'s legal-move fallback -- on every seed and on playout positions (pins, checks, double checks)
+    fpos = [(n, g) for n, g in seeds.items()]
+    pl = []; plays = []
+    for i in range(6 if quick else 60):
+        one = [g for g, k in posgen.playout(oracle, seeds[rng.choice(['start', 'kiwipete', 'pos4', 'pos5', 'pins', 'double_check2', 'castle_free'])], rng, 30, bias=6.0)]
+        pl += one; plays.append(one)
+    rng.shuffle(pl)
+    fpos += [(f'playout{i}', g) for i, g in enumerate(pl[:120 if quick else 3000])]
+    for n, g in fpos:
+        sc.append(('fallback', f'{n}@stop0', [mk_search(2, 0, 0, 0, 1, [], g)]))
+        if rng.random() < 0.4:
+            t = g.split(); t[18] = '100'
+            sc.append(('fallback', f'{n}@hmc100', [mk_search(2, -1, 0, 0, 1, [], ' '.join(t))]))
+    # shallow: many playout positions searched twice in a row (cold then warm TT) at depth 3/2 -- volume for the output monitors
+    # (aspiration-window edge cases such as score == beta need many iterations to occur)
+    for i, g in enumerate(pl[:60 if quick else 1500]):
+        sc.append(('shallow', f'playout{i}', [mk_search(3, -1, 0, 0, 1, [], g), mk_search(2, -1, 0, 0, 1, [], g)]))
+    # ... and consecutive positions of one playout searched with the table kept (a move two plies down, then the position before it)
+    for i, one in enumerate(plays):
+        for w in range(0, len(one) - 3, 3 if quick else 1):
+            sc.append(('shallow', f'window{i}.{w}', [mk_search(3, -1, 0, 0, 1, [], one[w + 2]), mk_search(3, -1, 0, 0, 1, [], one[w]), mk_search(3, -1, 0, 0, 1, [], one[w + 1])]))
     # bypass
     for name in LIGHT + HEAVY:
         if name not in seeds: continue
